@@ -113,7 +113,7 @@ CHECKS = {
     },
 }
 
-CHAIN_NOTE = "Reference model as conformance checker: the observed DeliverTx code is an input; for code 0 the necessary conditions the property states are asserted and the specified effect is applied to the model; block-level rules are predicted by the model; after every block the relevant part of the committed state (read through tag-guarded accessors and queries) is compared. Contract txs in these histories come from three fixed templates with known effect - a storage sink, a reverter and a contract that self-destructs to its caller - (C17 covers general EVM programs). While it executes the history the replica also serves mempool checks (CheckTx of the block's own txs before their delivery and of fresh valid txs at the call boundaries) and is stopped and reopened at generated block boundaries (labels feat:checktx_ok_served, feat:restart): the property has to hold on a node that does what real nodes do. Known findings F9/F11 (chain start) are excluded by construction and counted."
+CHAIN_NOTE = "Reference model as conformance checker: the observed DeliverTx code is an input; for code 0 the necessary conditions the property states are asserted and the specified effect is applied to the model; block-level rules are predicted by the model; after every block the relevant part of the committed state (read through tag-guarded accessors and queries) is compared. Contract txs in these histories come from four fixed templates with known effect - a storage sink, a reverter, a contract that self-destructs to its caller and one that self-destructs into itself (which burns its balance by EVM definition; accounted as destroyed value) - (C17 covers general EVM programs). While it executes the history the replica also serves mempool checks (CheckTx of the block's own txs before their delivery and of fresh valid txs at the call boundaries) and is stopped and reopened at generated block boundaries (labels feat:checktx_ok_served, feat:restart): the property has to hold on a node that does what real nodes do. Known findings F9/F11 (chain start) are excluded by construction and counted."
 
 def chain(test, technique, text, rule, quick=150, thorough=500, note=CHAIN_NOTE):
     return {"test": test, "level": "exploration", "engine": "chain", "technique": technique, "level_text": text, "level_note": note,
